@@ -217,7 +217,7 @@ func (g *Gen) asciiStr(maxLen int) string {
 		}
 		return string(b)
 	}
-	special := []byte{0, 9, 10, 13, 31, 32, 34, 47, 60, 62, 92, 126, 127, '.', '[', ']', 'a', 'Z', '0'}
+	special := []byte{0, 9, 10, 13, 31, 32, 34, 37, 47, 60, 62, 92, 92, 126, 127, '.', '[', ']', 'a', 'Z', '0'}
 	for i := range b {
 		if g.pick(3) == 0 {
 			b[i] = special[g.pick(len(special))]
